@@ -86,6 +86,13 @@ func (e *Exec) step(fr *frame, instr ssa.Instruction, reach Term, st *State) Ter
 		case *types.Slice:
 			ref, off, ln := base.L[0], base.L[1], base.L[2]
 			reach = e.boundsCheck(i64, ln, reach, x.Pos(), e.srcText(x.Pos(), token.NoPos), isSigned(idx.Typ))
+			if base.Addr != nil && base.Addr.Kind >= 0 {
+				// a slice of a whole array object that is tracked structurally (slice literal, varargs)
+				if at, ok := typeAt(base.Addr.Typ, base.Addr.Path).Underlying().(*types.Array); ok {
+					st.env[x] = Val{Typ: x.Type(), L: []Term{tNil}, Addr: base.Addr.extend(Step{Field: -1, Idx: i64, Len: at.Len()})}
+					break
+				}
+			}
 			st.env[x] = Val{Typ: x.Type(), L: []Term{tNil}, Addr: e.sliceElemAddr(ref, c.app(bvSort(64), "bvadd", off, i64), bt.Elem())}
 		default:
 			e.fail("IndexAddr on %s", base.Typ)
